@@ -136,31 +136,171 @@ def rule_exit_status(ctx, R="C03.2"):
     fn = canon_main(ctx, R)
     if fn is None:
         return
-    ms = [m for m in walk(fn["body"]) if m["k"] == "Match" and "reports_written" in render(m["scrut"])]
-    if len(ms) != 1:
-        ctx.missing(R, "main/match-on-reports_written", "found %d" % len(ms))
-    else:
-        m = ms[0]
-        scr = render(strip(m["scrut"])).replace(" ", "")
-        ctx.check(R, "main/exit-from-stdout-counter", scr == "stdout_writer.reports_written()", "scrutinee: %s (the exit status and summary must come from what was displayed on stdout)" % scr, site(MAIN, m))
-        tail = block_tail(fn["body"])
-        ctx.check(R, "main/match-is-the-result", tail is m, "the match on the counter must be the value of main", site(MAIN, m))
+    # the end of main, evaluated for a displayed-report count of 0, 1, 2 and 7: which exit status is returned and which
+    # summary is printed.  A match on the counter, an if/else chain and a helper that formats the message all evaluate
+    # to the same table.
+    COUNT = "stdout_writer.reports_written()"
+
+    class Unknown(Exception):
+        pass
+
+    def is_count(e, al):
+        t = render(strip(e)).replace(" ", "").lstrip("&*")
+        return t == COUNT or t in al
+
+    def ev_int(e, n, al):
+        e = strip(e)
+        if is_count(e, al):
+            return n
+        if e["k"] == "Lit" and e.get("lit") == "int":
+            return int(str(e["value"]).split("_")[0].rstrip("usize").rstrip("i32") or 0)
+        raise Unknown(render(e))
+
+    def ev_bool(e, n, al):
+        e = strip(e)
+        if e["k"] == "Binary" and e["op"] in ("==", "!=", "<", "<=", ">", ">="):
+            a, b = ev_int(e["l"], n, al), ev_int(e["r"], n, al)
+            return {"==": a == b, "!=": a != b, "<": a < b, "<=": a <= b, ">": a > b, ">=": a >= b}[e["op"]]
+        if e["k"] == "Unary" and e["op"] == "!":
+            return not ev_bool(e["e"], n, al)
+        raise Unknown(render(e))
+
+    def pick_arm(m, n, al):
+        if not is_count(m["scrut"], al):
+            raise Unknown(render(m["scrut"]))
         for a in m["arms"]:
-            pat = render(a["pat"])
-            codes = [last(n["path"]) for n in walk(a["body"]) if n["k"] == "Path" and n["path"].startswith("ExitCode::")]
-            msgs = [n for n in method_calls(a["body"], "write_message")]
-            msg = render(msgs[0]["args"][0]) if msgs else ""
-            if pat == "0":
-                ctx.check(R, "main/arm/0", codes == ["SUCCESS"] and "No issues found." in msg, "arm 0 => %s, message %s" % (codes, msg[:60]), site(MAIN, a))
-            else:
-                okk = codes == ["FAILURE"]
-                if pat == "1":
-                    okk = okk and "1 issue found." in msg
+            pt = a["pat"]
+            cases = pt["cases"] if pt["k"] == "POr" else [pt]
+            for c in cases:
+                if c["k"] == "PLit":
+                    if int(str(c["lit"]["value"])) == n and a.get("guard") is None:
+                        return a, {}
+                elif c["k"] in ("PWild",) and a.get("guard") is None:
+                    return a, {}
+                elif c["k"] == "PIdent" and a.get("guard") is None:
+                    return a, {c["name"]: n}
                 else:
-                    okk = okk and a["pat"]["k"] == "PIdent" and ("{%s}" % a["pat"]["name"]) in msg
-                ctx.check(R, "main/arm/" + pat, okk, "arm %s => %s, message %s" % (pat, codes, msg[:60]), site(MAIN, a))
+                    raise Unknown(render(pt))
+        raise Unknown("no arm")
+
+    def ev_text(e, n, al, binds):
+        """the text of a message expression"""
+        e = strip(e)
+        k = e["k"]
+        if k == "Ref":
+            return ev_text(e["e"], n, al, binds)
+        if k == "MethodCall" and e["method"] in ("to_string", "into", "to_owned", "as_str", "clone") and not e["args"]:
+            return ev_text(e["recv"], n, al, binds)
+        if k == "Call" and render(e["func"]) in ("String::from",) and len(e["args"]) == 1:
+            return ev_text(e["args"][0], n, al, binds)
+        if k == "Lit" and e.get("lit") == "str":
+            return e["value"]
+        if k == "Macro" and last(e["name"]) == "format":
+            raw = e["raw"]
+            mm = re.match(r'\s*"((?:[^"\\]|\\.)*)"\s*(?:,(.*))?$', raw, re.S)
+            if not mm:
+                raise Unknown(raw)
+            text, rest = mm.group(1), [x.strip() for x in (mm.group(2) or "").split(",") if x.strip()]
+
+            def cap(m_):
+                nm = m_.group(1)
+                if nm == "":
+                    if not rest:
+                        raise Unknown(raw)
+                    nm = rest.pop(0)
+                if nm in al or nm in binds or nm.replace(" ", "") == COUNT:
+                    return str(n)
+                raise Unknown(nm)
+
+            return re.sub(r"\{(\w*)\}", cap, text)
+        if k == "Match":
+            a, b = pick_arm(e, n, al)
+            return ev_text(a["body"], n, al, dict(binds, **b))
+        if k == "If" and e.get("else") is not None and e["cond"]["k"] != "Let":
+            return ev_text(e["then"] if ev_bool(e["cond"], n, al) else e["else"], n, al, binds)
+        if k == "Block":
+            tl = block_tail(e)
+            if tl is not None and len(e["stmts"]) == 1:
+                return ev_text(tl, n, al, binds)
+        if k == "Path" and e["path"] in texts:
+            return ev_text(texts[e["path"]], n, al, binds)
+        raise Unknown(render(e)[:60])
+
+    texts = {}
+
+    def run_block(stmts, n, al, binds, out):
+        """returns the exit status the block yields as its value / by `return`, or None"""
+        for i, st in enumerate(stmts):
+            is_tail = i == len(stmts) - 1 and st["k"] == "ExprStmt" and not st.get("semi")
+            e = st.get("e") if st["k"] == "ExprStmt" else None
+            if st["k"] == "Local":
+                if st["pat"]["k"] == "PIdent" and st.get("init") is not None:
+                    if is_count(st["init"], al) and not st["pat"].get("mut"):
+                        al.add(st["pat"]["name"])
+                    else:
+                        texts[st["pat"]["name"]] = st["init"]
+                continue
+            if e is None:
+                continue
+            r = run_expr(e, n, al, binds, out)
+            if r is not None:
+                return r
+        return None
+
+    def run_expr(e, n, al, binds, out):
+        e = strip(e)
+        k = e["k"]
+        if k == "Path" and e["path"].startswith("ExitCode::"):
+            return last(e["path"])
+        if k == "Return":
+            return run_expr(e["e"], n, al, binds, out) if e.get("e") else "?"
+        if k == "Block":
+            return run_block(e["stmts"], n, al, binds, out)
+        if k == "Match" and is_count(e["scrut"], al):
+            a, b = pick_arm(e, n, al)
+            return run_expr(a["body"], n, al, dict(binds, **b), out)
+        if k == "If":
+            try:
+                c = ev_bool(e["cond"], n, al) if e["cond"]["k"] != "Let" else None
+            except Unknown:
+                c = None
+            if c is None:
+                # a test that is not about the counter (the SARIF branch): it must not decide the exit status
+                for br in (e["then"], e.get("else")):
+                    if br is not None and run_expr(br, n, al, binds, []) is not None:
+                        raise Unknown("exit status decided under `%s`" % render(e["cond"])[:60])
+                return None
+            br = e["then"] if c else e.get("else")
+            return run_expr(br, n, al, binds, out) if br is not None else None
+        if k == "MethodCall" and e["method"] == "write_message" and render(strip(e["recv"])) == "stdout_writer":
+            try:
+                out.append(ev_text(e["args"][0], n, al, binds))
+            except Unknown as u:
+                out.append("<?%s>" % u)
+            return None
+        return None
+
+    body = fn["body"]["stmts"]
+    first = [i for i, st in enumerate(body) if "reports_written" in render(st)]
+    if not first:
+        ctx.missing(R, "main/summary", "main never reads the displayed-report counter")
+    else:
+        for n in (0, 1, 2, 7):
+            texts.clear()
+            out = []
+            try:
+                code = run_block(body[first[0]:], n, set(), {}, out)
+                why = ""
+            except Unknown as u:
+                code, why = None, "cannot evaluate: %s" % u
+            summ = [t for t in out if "issue" in t.lower()]
+            want_code = "SUCCESS" if n == 0 else "FAILURE"
+            want_text = {0: "No issues found.", 1: "1 issue found."}.get(n, "%d issues found." % n)
+            ctx.check(R, "main/exit[displayed=%d]" % n, code == want_code, "exit status %s, expected %s (from what was displayed on stdout) %s" % (code, want_code, why), site(MAIN, fn))
+            ctx.check(R, "main/summary[displayed=%d]" % n, summ == [want_text], "summary %s, expected [%r] %s" % (summ, want_text, why), site(MAIN, fn))
         # other SUCCESS exits: only the help path
-        others = [n for n in walk(fn["body"]) if n["k"] == "Path" and n["path"] == "ExitCode::SUCCESS" and not any(x is n for x in walk(m))]
+        tail_nodes = {id(x) for st in body[first[0]:] for x in walk(st)}
+        others = [x for x in walk(fn["body"]) if x["k"] == "Path" and x["path"] == "ExitCode::SUCCESS" and id(x) not in tail_nodes]
         for o in others:
             cs = facts_str(conditions_to(fn["body"], o) or [])
             ctx.check(R, "main/other-success-exit", any("input_files.is_empty()" in c for c in cs), "ExitCode::SUCCESS under %s" % cs, site(MAIN, o))
@@ -461,6 +601,38 @@ def rule_no_narrowing(ctx, R):
                         bad.append("%s.%s(..)" % (recv[:30], m["method"]))
             ctx.check(R, "%s::%s/no-narrowing" % ((q or file.rsplit("/", 1)[-1]), f["name"]), not bad, "report collections are narrowed: %s" % bad, site(file, f))
     ctx.floor(R, "runner and writer functions", n, 15)
+    # the same, type-resolved and program-wide (MIR): a narrowing operation whose element type is Report
+    import os
+
+    if os.environ.get("VERIF_SKIP_MIR_RULES") == "1":
+        return ctx.note("%s type-resolved narrowing scan skipped (VERIF_SKIP_MIR_RULES=1)" % R)
+    import dropflow
+    import mirlib
+
+    ALLOWED = {
+        r"utils::writers::(StdoutWriter|SarifWriter)::filter(::\{closure#\d+\})*$": "the user's filters (C03.2: conjunction of all filters, nothing else)",
+        r"analysis_runner::AnalysisRunner::take_(function|template)_reports$": "draining the per-definition cache hands the whole entry to the writer",
+    }
+    k = scanned = 0
+    for fid, fn in sorted(mirlib.index().items()):
+        if fn.get("gen") or dropflow._is_test(fn):
+            continue
+        for _i, t in mirlib.calls_of(fn):
+            p_ = t.get("pretty") or ""
+            m_ = re.search(r"::(\w+)$", p_)
+            scanned += 1
+            g_ = t.get("gargs") or []
+            # the element type of the receiver: Self of an iterator adaptor / T of a Vec method / V of a map method
+            elem = [g_[0]] if g_ else []
+            if "HashMap" in p_ or "BTreeMap" in p_:
+                elem = g_[1:2]
+            if not m_ or m_.group(1) not in NARROWING or t.get("exp") or not any("report::Report" in g for g in elem):
+                continue
+            k += 1
+            why = [w for pat, w in ALLOWED.items() if re.search(pat, fn["pretty"])]
+            ctx.check(R, "%s/no-narrowing/%s" % (fn["pretty"], m_.group(1)), bool(why), why[0] if why else "%s on %s: reports are removed between production and display (which ones depends on the order files and definitions were processed in)" % (m_.group(1), [dropflow.short_ty(g) for g in t["gargs"]][:2]), (fn["file"], t["line"]))
+    ctx.note("%d narrowing operations on report collections, all reviewed" % k)
+    ctx.floor(R, "calls scanned for narrowing operations", scanned, 5000)
 
 
 def rule_cache_append(ctx, R):
